@@ -179,7 +179,8 @@ def check(repo: Repo, rep: Report) -> None:
     for s in sites(run):
         if isinstance(s.node, (ast.If, ast.While, ast.IfExp, ast.Assert)):
             from ..astutil import atoms
-            for e, _pol in atoms(s.node.test, True):
+            from ..rules import effective_test
+            for e, _pol in atoms(effective_test(run, s.node.test), True):
                 for x in (e.values if isinstance(e, ast.BoolOp) else [e]):
                     while isinstance(x, ast.UnaryOp) and isinstance(x.op, ast.Not):
                         x = x.operand
